@@ -136,6 +136,53 @@ func rulePatchSeq(w *World, r *Report, pkg *ssa.Package) {
 		}
 		nOK++
 	}
+	// the converse for the before-context: a test op is enforced, once it has become Before, at the
+	// position right above the edit (R-CTXPOS); RFC 6902 evaluates it at the index it names. A test
+	// further up than one position must therefore not be folded into Before — jd would check another
+	// element than the RFC does and accept what the RFC rejects.
+	{
+		key2 := "v2.setPatchDiffElementContext:before-context-only-if-adjacent"
+		bad := ""
+		nNeg := 0
+	neg:
+		for _, gap := range []int64{2, 3} {
+			for _, tail := range [][]op{
+				{{"add", i}},
+				{{"test", i}, {"remove", i}},
+				{{"test", i + 1}, {"test", i}, {"remove", i}},
+				{{"test", i + 2}, {"test", i}, {"remove", i}, {"test", i}, {"remove", i}},
+				{{"test", i}, {"add", i}},
+			} {
+				ops := append([]op{{"test", i - gap}}, tail...)
+				names := make([]string, len(ops))
+				idx := make([]int64, len(ops))
+				seq := []string{}
+				for k, o := range ops {
+					names[k], idx[k] = o.name, o.idx
+					seq = append(seq, fmt.Sprintf("%s /%d", o.name, o.idx))
+				}
+				res := ev.run(names, idx)
+				if res.undecided != "" {
+					bad = ""
+					nNeg = -1
+					break neg
+				}
+				nNeg++
+				if !res.err && res.before == "op0" {
+					bad = fmt.Sprintf("[%s]: the first test, %d positions above the edit, is folded into the hunk's before-context (consumes %d)", strings.Join(seq, ", "), gap, res.consumed)
+					break neg
+				}
+			}
+		}
+		switch {
+		case nNeg < 0:
+			r.Ok(rule, key2, pos, "the evaluator cannot decide a branch of the context reader on the non-adjacent sequences: this clause makes no claim (not decided)")
+		case bad != "":
+			r.Bad(rule, key2, pos, "for the op sequence "+bad+": the list patch checks a before-context at the position right above the edit, RFC 6902 evaluates the test at the index it names — jd compares a different element and accepts documents on which the RFC evaluation fails")
+		default:
+			r.Ok(rule, key2, pos, fmt.Sprintf("none of %d op sequences whose leading test lies 2 or 3 positions above the edit is folded into a before-context", nNeg))
+		}
+	}
 	r.Ok(rule, key, pos, fmt.Sprintf("all %d op sequences of the writer's list-hunk grammar (context present/absent, 0..3 removals, 0..2 additions, with and without a following hunk, at the start of the hunk and of each later pair) are consumed as the writer means them", nOK))
 }
 
